@@ -801,6 +801,36 @@ theorem trans_C10_C19_confirmInflightIsZero_v2 (mcb slots : Nat) :
 theorem trans_C10_Inflight_v2 (mcb slots : Nat) (h : slots < 4294967296) : v2_Inflight ⟨mcb, slots⟩ = slots := by
   simp [v2_Inflight, u32]; omega
 
+/-! ### Batcher: `Pause()` -/
+
+/-- `Pause()` has an effect exactly when the Batcher is started (phase 1): it leaves one pause request for the loop
+(never more than one: the channel holds a single token) and the phase paused, so that a second `Pause()` - made before
+the loop has even taken the request, or during the pause - changes nothing; before Start, while paused and after
+shutdown it is ignored (the machine's `pauseCall`) -/
+theorem trans_C13_Pause_v2 (ph tok : Nat) (h : tok ≤ 1) :
+    v2_Pause { phase := ph, pause := tok } = (if ph = 1 then { phase := 2, pause := 1 } else { phase := ph, pause := tok }) := by
+  by_cases h1 : ph = 1
+  · have : tok = 0 ∨ tok = 1 := by omega
+    rcases this with h0 | h0 <;> simp [v2_Pause, h1, h0]
+  · have h1' : ¬ (ph : Int) = 1 := by omega
+    simp [v2_Pause, h1, h1']
+
+theorem trans_C13_Pause_v1 (ph tok : Nat) (h : tok ≤ 1) :
+    v1_Pause { phase := ph, pause := tok } = (if ph = 1 then { phase := 2, pause := 1 } else { phase := ph, pause := tok }) := by
+  by_cases h1 : ph = 1
+  · have : tok = 0 ∨ tok = 1 := by omega
+    rcases this with h0 | h0 <;> simp [v1_Pause, h1, h0]
+  · have h1' : ¬ (ph : Int) = 1 := by omega
+    simp [v1_Pause, h1, h1']
+
+/-- two `Pause()` calls in a row are one -/
+theorem trans_C13_Pause_idempotent_v2 (ph tok : Nat) (h : tok ≤ 1) :
+    v2_Pause (v2_Pause { phase := ph, pause := tok }) = v2_Pause { phase := ph, pause := tok } := by
+  rw [trans_C13_Pause_v2 ph tok h]
+  by_cases h1 : ph = 1
+  · simp only [h1, if_true]; exact trans_C13_Pause_v2 2 1 (by omega)
+  · simp only [h1, if_false]; rw [trans_C13_Pause_v2 ph tok h]; simp [h1]
+
 /-! ### non-vacuity: the translated functions on concrete values (also a readable trace of what they compute) -/
 
 example : v2_incTarget ⟨7⟩ 5 = ⟨12⟩ ∧ v2_incTarget ⟨7⟩ (-5) = ⟨2⟩ ∧ v2_incTarget ⟨7⟩ (-9) = ⟨0⟩ ∧ v2_incTarget ⟨7⟩ 0 = ⟨7⟩ := by decide
